@@ -14,18 +14,19 @@ def main():
         if not os.path.exists(os.path.join(d, 'patch.diff')): continue
         meta = json.load(open(os.path.join(d, 'meta.json'))); prop = meta.get('property', nm[:3])
         r = sh('git -C %s apply %s/patch.diff' % (W, d))
+        if r.returncode != 0: r = sh('cd %s && patch -p1 --fuzz=3 --no-backup-if-mismatch < %s/patch.diff' % (W, d))      # seeds taken against an earlier HEAD (before a fix: commit touched the file)
         if r.returncode != 0:
-            print(nm, 'PATCH DOES NOT APPLY', r.stderr[:200]); continue
+            sh('git -C %s checkout -- . ; git -C %s clean -fdq' % (W, W)); print(nm, 'PATCH DOES NOT APPLY', r.stderr[:200]); continue
         res = {}
         try:
-            targets = [prop] if prop in claimed else []
+            targets = [prop] if prop in claimed else [c for c in ('C03', 'C04', 'C06', 'C08') if prop == 'C05']      # C05 is not claimed: its seeds are run against the checks that own its ingredients
             targets += [c for c in claimed if c != prop] if os.environ.get('SEEDS_ALL') else []
             for c in targets:
                 t = time.time(); r = sh('./check %s quick' % c, cwd=V, env=env)
                 res[c] = {'exit': r.returncode, 'violation_lines': r.stdout.count('VIOLATION property='), 'tail': r.stdout.strip().split('\n')[-1][:300], 'secs': round(time.time() - t, 1)}
         finally:
-            sh('git -C %s checkout -- .' % W); sh('rm -rf /tmp/seedscratch')      # builds and output of the mutated tree go with it
-        json.dump({'seed': nm, 'property': prop, 'repo_head': sh('git -C /repo rev-parse --short HEAD').stdout.strip(), 'results': res}, open(os.path.join(d, 'detect.json'), 'w'), indent=1)
+            sh('git -C %s checkout -- . ; git -C %s clean -fdq' % (W, W)); sh('rm -rf /tmp/seedscratch')      # builds and output of the mutated tree go with it
+        json.dump({'seed': nm, 'property': prop, 'repo_head': sh('git -C /repo rev-parse --short HEAD').stdout.strip(), 'results': res}, open(os.path.join(d, os.environ.get('SEEDS_OUT', 'detect.json')), 'w'), indent=1)
         print(nm, prop, {k: (v['exit'], v['violation_lines']) for k, v in res.items()} or 'no check for this property yet')
 main()
 sh('git -C /repo worktree remove --force /tmp/seedrepo; git -C /repo worktree prune; rm -rf /tmp/seedscratch')
